@@ -140,7 +140,7 @@ def run(chk):
     chk.cov["crash_points"] = npoints
     eintr = []
     for setup, op, tail in eintr_scenarios():
-        eintr += ipc.eintr_cases(setup, op, tail, counts=(1, 2, 3, 4, 5, 6) if thorough else (1, 2, 6))
+        eintr += ipc.eintr_cases(setup, op, tail, counts=(1, 2, 3, 4, 5, 6, 150, 1000) if thorough else (1, 2, 6, 150))
     chk.cov["eintr_cases"] = len(eintr)
     depth = 4 if thorough else 3
     ex = list(exhaustive(depth))
